@@ -137,8 +137,8 @@ class C01(PropertyCheck):
         "property predicate (the property text is silent; C02 covers the convention)",
     ]
     exhaustive = {"quick": False, "thorough": True}
-    quick_budget_s = 75
-    thorough_budget_s = 800
+    quick_budget_s = 60
+    thorough_budget_s = 650
 
     def __init__(self):
         self._pairs = set()
@@ -283,7 +283,7 @@ class C01(PropertyCheck):
             n_random, maxlen, exh_len = 20000, 10, 3
         else:  # search
             triples = [["1", "1", "1"], ["2", "2", "2"], ["1/2", "1", "3/2"], ["3", "1/4", "2"], ["1", "4", "1/2"]]
-            n_random, maxlen, exh_len = 20000, 10, 3
+            n_random, maxlen, exh_len = 30000, 10, 3
         yield from self.malformed_cases()
         yield from self.zero_cases(rng)
         yield from self.sweep_cases(rng, 4 if tier == "quick" else 6)
